@@ -93,6 +93,11 @@ def _is_empty_literal(e: ast.AST) -> bool:
     return False
 
 
+def _is_zero(e: ast.AST) -> bool:
+    # a count read with `d.get(k, 0)`: a missing key counts as 0, which is what Counter / defaultdict(int) give for d[k]
+    return isinstance(e, ast.Constant) and e.value == 0 and not isinstance(e.value, bool)
+
+
 class _Canon(ast.NodeTransformer):
     """Rewrites that do not change the value as far as guards are concerned:
     d.get(k, <empty>) -> d[k];  (x) is x."""
@@ -100,7 +105,7 @@ class _Canon(ast.NodeTransformer):
     def visit_Call(self, node: ast.Call):
         self.generic_visit(node)
         if isinstance(node.func, ast.Attribute) and node.func.attr == 'get' and not node.keywords \
-                and ((len(node.args) == 2 and _is_empty_literal(node.args[1])) or len(node.args) == 1):
+                and ((len(node.args) == 2 and (_is_empty_literal(node.args[1]) or _is_zero(node.args[1]))) or len(node.args) == 1):
             # (inside len()/truthiness a missing key (None / empty default) behaves like an empty entry)
             return ast.Subscript(value=node.func.value, slice=node.args[0], ctx=ast.Load())
         return node
